@@ -112,6 +112,8 @@ fn main() {
                 let _ = writeln!(out, "panic");
             }
         }
+        // terminator: a block without it was cut short (the process was killed while writing)
+        let _ = writeln!(out, "end");
         so.write_all(out.as_bytes()).unwrap();
     }
     so.flush().unwrap();
